@@ -259,6 +259,6 @@ func init() {
 		c.Assume = append(c.Assume, "virtual millisecond clock: by default it does not tick inside an execution (several events within one millisecond)", "memnet replaces net/http")
 		c.Enumerate("c10/sequences")
 		c.DFS("c10/clock", explore.Bounds{Preempt: 0, Dev: c.Pick(3, 5), POR: true})
-		c.DFS("c10/two-calls", explore.Bounds{Preempt: c.Pick(2, 4), Dev: 1, POR: true})
+		c.DFSBoth("c10/two-calls", explore.Bounds{Preempt: c.Pick(2, 4), Dev: 1}, 1)
 	})
 }
